@@ -211,7 +211,8 @@ def corr_evolvent(r, tier):
     kinds = {}
     for mt in meta:
         kinds[mt[0]] = kinds.get(mt[0], 0) + 1
-    return {"evaluations": len(lines), "kinds": kinds, "mismatches": bad,
+    return {"evaluations": len(lines), "distinct": len(set(lines)), "kinds": kinds, "mismatches": bad,
+            "exhaustive_parts": "__CalculateNode/__CalculateNumbr on their whole domain for N=2..5; every subinterval of every (N,m) with N*m <= %d" % (12 if tier == "quick" else 16),
             "samples": [{"command": lines[i], "output": mo[i]} for i in (0, len(lines) // 2, len(lines) - 1)]}
 
 
@@ -326,7 +327,9 @@ def corr_sd(r, tier):
             if mo[i] != io[i]:
                 bad.append(Mismatch("searchdata", sc[:i + 1], i, sc[i], mo[i], io[i]))
                 break
-    return {"evaluations": total, "scripts": len(scripts), "scripts_with_error_path": errs, "mismatches": bad,
+    return {"evaluations": total, "distinct": len({tuple(sc) for sc in scripts}), "scripts": len(scripts),
+            "scripts_with_error_path": errs, "mismatches": bad,
+            "exhaustive_parts": "all scripts of length %d over an 8-letter alphabet x {single,dual} x {unbounded,maxlen 2}" % depth,
             "samples": [scripts[0][:8], scripts[-1]]}
 
 
@@ -359,7 +362,8 @@ def corr_solver(r, ncases, variants=None, case_fn=None):
                 break
     if any("oracle-exhausted" in o for o in out):
         stats["oracle_exhausted"] = sum(1 for o in out if "oracle-exhausted" in o)
-    return {"evaluations": len(allm), "cases": ncases, "stats": stats, "mismatches": bad,
+    return {"evaluations": len(allm), "distinct": len({json.dumps(m, sort_keys=True, default=str) for m in metas}),
+            "cases": ncases, "stats": stats, "mismatches": bad,
             "samples": [metas[0], metas[-1]] if metas else []}
 
 
@@ -426,4 +430,6 @@ def corr_eo(r, tier):
         for i in range(ln):
             if mo[st + i] != io[i]:
                 bad.append(Mismatch("evobj", sc[:i + 1], i, sc[i], mo[st + i], io[i])); break
-    return {"evaluations": total, "scripts": len(scripts), "mismatches": bad, "samples": [scripts[0][:10], scripts[-1]]}
+    return {"evaluations": total, "distinct": len({tuple(sc) for sc in scripts}), "scripts": len(scripts), "mismatches": bad,
+            "exhaustive_parts": "all call sequences of length %d over a 6-letter alphabet for N = 1, 2" % depth,
+            "samples": [scripts[0][:10], scripts[-1]]}
